@@ -64,6 +64,7 @@ enum rx_state {
 	RX_ST_ESCAPE,
 	RX_ST_ADDR_ESCAPE,
 	RX_ST_CTRL_ESCAPE,
+	RX_ST_DISCARD,
 };
 
 static struct {
@@ -256,7 +257,10 @@ int sercomm_drv_rx_char(uint8_t ch)
 		//cons_puts("sercomm_drv_rx_char() overflow!\n");
 		msgb_free(sercomm.rx.msg);
 		sercomm.rx.msg = sercomm_alloc_msgb(SERCOMM_RX_MSG_SIZE);
-		sercomm.rx.state = RX_ST_WAIT_START;
+		/* skip the rest of the over-long frame, so that its closing
+		 * flag is not mistaken for the start of the next frame */
+		sercomm.rx.state = (ch == HDLC_FLAG) ?
+					RX_ST_WAIT_START : RX_ST_DISCARD;
 		return 0;
 	}
 
@@ -265,6 +269,10 @@ int sercomm_drv_rx_char(uint8_t ch)
 		if (ch != HDLC_FLAG)
 			break;
 		sercomm.rx.state = RX_ST_ADDR;
+		break;
+	case RX_ST_DISCARD:
+		if (ch == HDLC_FLAG)
+			sercomm.rx.state = RX_ST_WAIT_START;
 		break;
 	case RX_ST_ADDR:
 		if (ch == HDLC_ESCAPE) {
